@@ -521,6 +521,9 @@ func runC13(c *engine.Ctx) {
 	// ---- R12 a start-up that fails after some joins succeeded leaves those groups again (shared with C10.R2): otherwise
 	// the group keeps a member whose proxy never ran, and connections handed to it are lost ----
 	checkRunRollbacks(c, "R12")
+
+	// ---- R13 rotation never divides by an empty member list (shared with C16.R19) ----
+	c16DivByLen(c, "R13")
 }
 
 // identityWidth: how many basic values a group identity slot holds — 1 for a basic field, n for a struct of n basic
